@@ -306,7 +306,7 @@ func monC09(c *child.Ctx, replay json.RawMessage) {
 	procs := []int{1, 2, 3, 4, 8, 16}
 	hooks := []string{"", "y400x2", "y150x1,s30u150", "s8u400", "y50x3"}
 	caps := []int{0, 1, 4, 64}
-	n := c.Share(c.Pick(400, 20000))
+	n := c.Share(c.Pick(1200, 30000))
 	for i := 0; i < n; i++ {
 		var input []byte
 		switch i % 6 {
